@@ -52,6 +52,10 @@ FIXED_COMMITS = {"K-catch-pop": "790993c", "K-stale-error-ip-a": "26bae81", "K-s
 # ---- other properties: (property, id, status, commit, title, scenario dict)
 from sim.props import c09, c15, c12, c01, c16, c14
 OTHER = [
+ ("C14", "K-import-at-frame-limit-reseeds-handler-module", "fixed", "f3dd6b3",
+  "an import whose module body could not be called (call stack at its limit; the IndexError was caught) installed the built-ins into the module of the handler instead of the new module: a built-in name the main script had rebound was silently reset",
+  {"ir": {"mods": [{"bind": "m0", "lazy": None, "path": "m0", "reads": [], "stmts": []}, {"bind": "m1", "lazy": None, "path": "m1", "reads": [], "stmts": []}],
+          "shape": "dag", "sites": 0, "steps": 2}, "tape": [0, 0, 7, 9, 0, 0] + [0] * 30, "faults": {}}),
  ("C14", "K-modules-lack-core-library-classes", "fixed", "2941b02",
   "imported modules got the interpreter's built-in classes and the core library's Iter/MapIter/FilterIter, but not Error, its subclasses and StopIter: naming one of them in a module raised NameError",
   {"ir": {"mods": [{"bind": "m0", "lazy": None, "path": "m0", "reads": [], "stmts": []}, {"bind": "m1", "lazy": None, "path": "m1", "reads": [], "stmts": []}],
